@@ -68,12 +68,33 @@ def main():
     meta.pop("what_i_ran", None)
     name = "%s-%s" % (meta["property"], meta["variant"])
     wt = "/tmp/ev-" + name
+    # Evaluate on the CURRENT /repo HEAD when the patch still applies there (every check is
+    # green on HEAD, so a red check is owed to the seeded change alone); otherwise on the
+    # change's base commit plus the verif-hook commits made since (the harness needs them).
     sh("git -C /repo worktree remove --force %s" % wt, "/")
-    rc, out = sh("git -C /repo worktree add --detach %s %s" % (wt, meta["base_commit"]), "/")
+    rc, out = sh("git -C /repo worktree add --detach %s HEAD" % wt, "/")
     if rc != 0:
         print(out)
         sys.exit(2)
-    result = {"evaluated_at": time.strftime("%Y-%m-%dT%H:%M:%SZ", time.gmtime()), "steps": {}}
+    tree = "HEAD"
+    rc, out = sh("git apply --check %s" % os.path.join(src, "patch.diff"), wt)
+    if rc != 0:
+        rc3, out3 = sh("git apply --3way --check %s" % os.path.join(src, "patch.diff"), wt)
+        if rc3 != 0:
+            tree = "base"
+            sh("git -C /repo worktree remove --force %s" % wt, "/")
+            rc, out = sh("git -C /repo worktree add --detach %s %s" % (wt, meta["base_commit"]), "/")
+            if rc != 0:
+                print(out)
+                sys.exit(2)
+            rcx, hooks = sh("git -C /repo log --reverse --format=%%H --grep='^verif hooks:' %s..HEAD" % meta["base_commit"], "/")
+            for h in hooks.split():
+                rcp, outp = sh("git cherry-pick -n %s" % h, wt)
+                if rcp != 0:
+                    sh("git cherry-pick --abort; git checkout -- .", wt)
+            sh("git -c user.email=v@v -c user.name=v commit -q -m hooks --allow-empty", wt)
+    result = {"evaluated_at": time.strftime("%Y-%m-%dT%H:%M:%SZ", time.gmtime()), "steps": {}, "evaluated_on": tree,
+              "repo_head": sh("git -C /repo rev-parse --short HEAD", "/")[1].strip()}
     ok = True
     try:
         p, out = demo(wt, src, meta)
@@ -82,6 +103,8 @@ def main():
             print("demo does not pass on the unchanged tree:\n" + out)
             ok = False
         rc, out = sh("git apply %s" % os.path.join(src, "patch.diff"), wt)
+        if rc != 0:
+            rc, out = sh("git apply --3way %s" % os.path.join(src, "patch.diff"), wt)
         if rc != 0:
             print("patch does not apply:\n" + out)
             sys.exit(2)
@@ -139,7 +162,7 @@ def main():
         except (OSError, ValueError):
             pass
         hist = old.get(name, {}).get("history", [])
-        hist.append({"at": result["evaluated_at"], "checks": {k: ("caught" if v["caught"] else "missed" if v["exit"] == 0 else "inconclusive") for k, v in result.get("checks", {}).items()}})
+        hist.append({"at": result["evaluated_at"], "on": result["evaluated_on"] + "@" + result["repo_head"], "checks": {k: ("caught" if v["caught"] else "missed" if v["exit"] == 0 else "inconclusive") for k, v in result.get("checks", {}).items()}})
         old[name] = {"property": meta["property"], "summary": meta.get("summary", "")[:300], "needs": meta.get("needs", "")[:300],
                      "latest": hist[-1]["checks"], "history": hist}
         meta["what_i_ran"] = result
